@@ -199,4 +199,45 @@ def c16_4(c: Ctx) -> None:
             c.fail(u, f'{U(call)} not guarded by {atom}', 'queued events of a stopped bus are processed (their handlers start after stop() returned)', node=call, witness=c.path(g.entry, bad[0]))
 
 
+
+@ob('C16.5', 'WMW', '_is_running becomes True only in _start(); it is cleared only by stop(), the run loop\'s own finally, the loop-close hook and __del__: nothing restarts or '
+    'half-stops a bus behind stop()\'s back')
+def c16_5(c: Ctx) -> None:
+    ws = [w for w in c.cg.all_writes('_is_running') if w.how == 'assign' and isinstance(w.node, ast.Assign)]
+    c.floor(len(ws), 4, 'assignments to _is_running')
+    may_set = {(SVC, 'EventBus._start')}
+    may_clear = {(SVC, 'EventBus.stop'), (SVC, 'EventBus._run_loop'), (SVC, 'EventBus.__del__'), (SVC, 'EventBus._start.close_with_cleanup')}
+    for w in ws:
+        v = w.node.value
+        val = v.value if isinstance(v, ast.Constant) else None
+        if val is True and w.unit.key in may_set:
+            c.ok(where(w.unit, w.node), '_is_running = True in _start()')
+        elif val is False and w.unit.key in may_clear:
+            c.ok(where(w.unit, w.node), f'_is_running = False in {w.unit.name}')
+        else:
+            c.fail(w.unit, f'assigns _is_running: {U(w.node)[:60]}', f'_is_running is written in {w.unit.qualname}: a stopped bus can be marked running again (its queued events get processed after stop() returned) or a running bus silently stops', node=w.node)
+    # stop() must not restart the bus after clearing the flag: no call that reaches _start() after `_is_running = False`
+    stop = c.unit(SVC, 'EventBus.stop')
+    g = c.cfg(stop)
+    self_ = stop.params()[0]
+    offs = [n for n in g.live_nodes() if n.kind == 'stmt' and isinstance(n.ast, ast.Assign) and U(n.ast.targets[0]) == f'{self_}._is_running']
+    starters = {k for k, u in c.cg.reach([c.unit(SVC, 'EventBus._start')]).items()}
+    start_key = c.unit(SVC, 'EventBus._start').key
+    from sa.cfg import search
+
+    def restarts(n) -> bool:
+        for call in q.node_calls(n):
+            r = c.an.fm.resolve_call(call, stop)
+            if hasattr(r, 'key') and start_key in c.cg.reach([r]):
+                return True
+        return False
+
+    for off in offs:
+        p = search([(off, ())], is_target=lambda n, d: restarts(n), edge_ok=lambda n, e, d: None if e.is_exc else d)
+        if p is None:
+            c.ok(where(stop, off.ast), 'after clearing _is_running stop() calls nothing that can restart the bus')
+        else:
+            c.fail(stop, f'stop() calls `{p[-1].node.text(60)}` after clearing _is_running, which can reach _start()', 'the bus is restarted by its own stop(): handlers start after stop() returned', node=p[-1].node.ast, witness=c.path(off, p))
+
+
 OBLIGATIONS = ob.obs
